@@ -1,3 +1,5 @@
+//go:build all || c15
+
 package props
 
 import (
